@@ -49,9 +49,14 @@ fn c05_strategy(cfg: GenCfg) -> proptest::strategy::BoxedStrategy<Case> { gen::i
 
 fn c05_judge(case: &Case, run: &Run, _an: &Analysis, stats: &mut Stats) -> CheckResult {
   let Some(Inject::Hidden { g, writer, reader }) = case.inject.clone() else {
-    // Negative half: a well-formed program never reports a hidden dependency.
+    // Negative half: a well-formed program never reports a hidden dependency - as long as no build has aborted before
+    // (after an aborted task execution spurious reports are possible: recorded finding C19-F1, judged by the C19 check).
     for (si, bi, _, p) in builds(run) {
-      if let Some(m) = p { if matches!(panic_kind(&m), PanicKind::HiddenRead | PanicKind::HiddenWrite) { return Err(Failure::new(format!("[c05-spurious] session {} build {}: well-formed program aborted: {}", si, bi, m))); } }
+      if let Some(m) = p {
+        if matches!(panic_kind(&m), PanicKind::HiddenRead | PanicKind::HiddenWrite) { return Err(Failure::new(format!("[c05-spurious] session {} build {}: well-formed program aborted: {}", si, bi, m))); }
+        stats.class("negative_half_stopped_at_task_failure");
+        break;
+      }
     }
     return Ok(());
   };
